@@ -31,7 +31,7 @@ from vf import termsmt as TS
 
 PID = "C02"
 LEVEL = "translation_validation"
-ITEM_TIMEOUT = {"quick": 900, "thorough": 3600}
+ITEM_TIMEOUT = {"quick": 600, "thorough": 3600}
 ASSUMPTIONS = [
     "stepwise execution = sequential application of each instruction's own map (semantics of single instructions are C06's subject)",
     "noaliasing=True: byte ranges accessed through different symbolic base pointers are pairwise disjoint and no access wraps around the address space (assumed in the query)",
@@ -644,8 +644,18 @@ def run_item(item):
     name, mi, a, b, tier, seed = item
     res = {"programs": 0, "obligations": 0, "discharged": 0, "inconclusive": 0, "top_results": 0, "untranslatable": 0, "disagreements_checked": 0,
            "violations": [], "samples": [], "solver_s": 0.0}
-    P = TS.Prover(timeout_ms=20000)
-    for idx, raws in sequences(name, mi, a, b, tier, seed):
+    import time
+    P = TS.Prover(timeout_ms=8000 if tier == "quick" else 20000)
+    t0 = time.time()
+    budget = 200 if tier == "quick" else 2400
+    seqs = sequences(name, mi, a, b, tier, seed)
+    for n_done, (idx, raws) in enumerate(seqs):
+        if time.time() - t0 > budget:
+            # solver-hard sequences (wide multiplications / divisions) ate the item's time budget: the remaining
+            # sequences are not examined in this run (counted, never reported as held)
+            res["inconclusive"] += len(seqs) - n_done
+            res["sequences_skipped_on_time_budget"] = res.get("sequences_skipped_on_time_budget", 0) + len(seqs) - n_done
+            break
         for noalias in (False, True):
             run_seq_culprit(name, mi, idx, raws, noalias, True, tier, seed, P, res)
         if idx % 4 == 0:
@@ -665,6 +675,7 @@ def coverage(agg, tier):
         "untranslatable": agg.get("untranslatable", 0),
         "solver_counterexamples_not_reproduced_by_the_real_routes(inconclusive)": agg.get("counterexamples_not_reproduced", 0),
         "not_reproduced_examples": agg.get("not_reproduced_examples", [])[:4],
+        "sequences_skipped_on_time_budget": agg.get("sequences_skipped_on_time_budget", 0),
         "solver_s": round(agg.get("solver_s", 0.0), 1),
         "rule": "program = (cpu module, decode mode, instruction sequence, noaliasing, memtrace); obligation = one register / the pc / one universally quantified memory byte of one route (block map; state>>block; block.eval(state); stepwise from state) against the z3 composition of the single-instruction maps, for all values of everything the state template leaves symbolic",
         "bounds": {"sequences": "per cpu module and mode (quick 16 | thorough 120) seeded sequences of length 1..(4 | 8) drawn from a pool of randomly decoded instructions (<= 2 per mnemonic in quick) that have semantics",
